@@ -11,7 +11,8 @@ IMPL_MODULE = "props.c05_impl"
 HASHSEEDS = {"quick": [0, 1], "thorough": [0, 1, 2, 3]}
 CASE_TIMEOUT = 120
 RULE = ("sharpen: small base grammars of families F1 (one base type: 1-3 constants, 0-2 unary, 1-2 binary primitives) and "
-        "F2 (int and bool: lt/eq, not/and, ite - sometimes at both int and bool, two primitives with one name -, constants), CFG.depth_constraint with max_depth 2-4, "
+        "F3 (one base type with a higher-order primitive apply : (int -> int) -> int -> int, so partial applications such as (+ 1) "
+        "are arguments and sit in arrow-typed non-terminals) and F2 (int and bool: lt/eq, not/and, ite - sometimes at both int and bool, two primitives with one name -, constants), CFG.depth_constraint with max_depth 2-4, "
         "min_variable_depth 0-1, optional forbidden table, request with 0-2 variables; 1-3 constraint strings and an "
         "optional sketch drawn from a grammar of the documented syntax (name sets a,b / ^a,b / _ / {a,b}, argument patterns "
         "nested <= 2 with pairwise different heads, counting rules #(..)<=n / #[..]>=n with n in 0..3 in both spellings, "
@@ -58,6 +59,15 @@ def gen_base(rng, family):
         for n in rng.sample([0, 1, 2], rng.randint(1, 2)):
             prims.append([n, S.ARROW(I, I, I)])
         request = S.ARROW(*([I] * rng.choice([0, 1, 1, 1, 2])), I)
+    elif family == "F3":
+        # higher-order: partial applications sit in arrow-typed non-terminals
+        for n in rng.sample([5, 6], rng.randint(1, 2)):
+            prims.append([n, I])
+        prims.append([100, S.ARROW(S.ARROW(I, I), I, I)])            # apply
+        prims.append([rng.choice([0, 1]), S.ARROW(I, I, I)])
+        if rng.random() < 0.6:
+            prims.append([4, S.ARROW(I, I)])
+        request = S.ARROW(*([I] * rng.choice([0, 1, 1])), I)
     else:
         for n in rng.sample([5, 6], rng.randint(1, 2)):
             prims.append([n, I])
@@ -322,7 +332,7 @@ def voc_of(dsl):
 def gen_sharpen(rng, tier, n):
     cases = []
     while len(cases) < n:
-        family = rng.choice(["F1", "F1", "F2"])
+        family = rng.choice(["F1", "F1", "F2", "F1", "F1", "F2", "F3"])
         dsl = gen_base(rng, family)
         max_depth = rng.choice([2, 3, 3, 3, 3, 4])
         _, ret = D.arrow_parts(dsl["request"])
